@@ -733,6 +733,10 @@ func c06Systematic(r *vlib.Run) {
 		}
 		out := filepath.Join(fl.Home, fmt.Sprintf("sys-%d.csv", run))
 		query := "from CONS select fid,count($line) group by fid outfile " + out
+		if run%4 == 2 {
+			// a result with a single column: one value per group and message
+			query = "from CONS select count($line) group by fid outfile " + out
+		}
 		fileArg := strings.Join(files, ",")
 		glob := run%2 == 1
 		if glob {
@@ -747,6 +751,9 @@ func c06Systematic(r *vlib.Run) {
 			for _, row := range rows {
 				if len(row) == 2 {
 					c, _ := strconv.Atoi(row[1])
+					got += c
+				} else if len(row) == 1 {
+					c, _ := strconv.Atoi(row[0])
 					got += c
 				}
 			}
